@@ -28,20 +28,63 @@ class IndexScope:
     pos_containers: Dict[str, ast.AST] = field(default_factory=dict)
 
 
-def find_index_scope(fi: FuncInfo) -> Optional[IndexScope]:
+def _once_assigned(fi: FuncInfo) -> Dict[str, ast.AST]:
+    cnt: Dict[str, int] = {}
+    val: Dict[str, ast.AST] = {}
     for n in ast.walk(fi.node):
-        if isinstance(n, ast.If) and isinstance(n.test, ast.Compare) and isinstance(n.test.left, ast.Name) and \
-                len(n.test.ops) == 1 and isinstance(n.test.ops[0], ast.Is) and \
-                isinstance(n.test.comparators[0], ast.Constant) and n.test.comparators[0].value is None and \
-                len(n.body) == 1 and isinstance(n.body[0], ast.Assign) and isinstance(n.body[0].targets[0], ast.Name) and \
-                n.body[0].targets[0].id == n.test.left.id:
-            v = n.body[0].value
-            if isinstance(v, ast.Call) and ast.unparse(v.func) in ('np.arange', 'range', 'list') and v.args:
-                a = v.args[0]
-                if isinstance(a, ast.Call) and isinstance(a.func, ast.Name) and a.func.id == 'len' and \
-                        isinstance(a.args[0], ast.Name):
-                    return IndexScope(fi, n.test.left.id, a.args[0].id, n)
+        if isinstance(n, ast.Name) and isinstance(n.ctx, ast.Store):
+            cnt[n.id] = cnt.get(n.id, 0) + 1
+        if isinstance(n, ast.Assign) and len(n.targets) == 1 and isinstance(n.targets[0], ast.Name):
+            val[n.targets[0].id] = n.value
+    return {k: v for k, v in val.items() if cnt.get(k) == 1}
+
+
+def find_index_scope(fi: FuncInfo) -> Optional[IndexScope]:
+    """The selection variable of an index-aware function: the name that receives `np.arange(len(trains))` when the
+    `indices` parameter is None (the parameter itself, or a local such as `selected`), with the train list."""
+    once = _once_assigned(fi)
+
+    def len_target(e) -> Optional[str]:
+        if isinstance(e, ast.Name) and e.id in once:
+            e = once[e.id]
+        if isinstance(e, ast.Call) and isinstance(e.func, ast.Name) and e.func.id == 'len' and len(e.args) == 1 \
+                and isinstance(e.args[0], ast.Name):
+            return e.args[0].id
+        return None
+    params = {a.arg for a in fi.node.args.args + fi.node.args.kwonlyargs}
+    for n in ast.walk(fi.node):
+        if not (isinstance(n, ast.If) and isinstance(n.test, ast.Compare) and isinstance(n.test.left, ast.Name) and
+                len(n.test.ops) == 1 and isinstance(n.test.ops[0], (ast.Is, ast.IsNot)) and
+                isinstance(n.test.comparators[0], ast.Constant) and n.test.comparators[0].value is None):
+            continue
+        if n.test.left.id not in params:
+            continue
+        none_branch = n.body if isinstance(n.test.ops[0], ast.Is) else n.orelse
+        for st in none_branch:
+            if isinstance(st, ast.Assign) and len(st.targets) == 1 and isinstance(st.targets[0], ast.Name):
+                v = st.value
+                if isinstance(v, ast.Call) and ast.unparse(v.func) in ('np.arange', 'range', 'list') and v.args:
+                    a = v.args[0]
+                    if isinstance(a, ast.Call) and ast.unparse(a.func) == 'range' and a.args:
+                        a = a.args[0]
+                    t = len_target(a)
+                    if t:
+                        return IndexScope(fi, st.targets[0].id, t, n)
     return None
+
+
+def uses_indices_itself(fi: FuncInfo) -> bool:
+    """the function has an `indices` parameter and does more with it than hand it on to another function"""
+    params = {a.arg for a in fi.node.args.args + fi.node.args.kwonlyargs}
+    if 'indices' not in params:
+        return False
+    forwarded = set()
+    for n in ast.walk(fi.node):
+        if isinstance(n, ast.Call):
+            for a in list(n.args) + [k.value for k in n.keywords]:
+                if isinstance(a, ast.Name) and a.id == 'indices':
+                    forwarded.add(id(a))
+    return any(isinstance(n, ast.Name) and n.id == 'indices' and id(n) not in forwarded for n in ast.walk(fi.node))
 
 
 def _is_len_of(e: ast.AST, name: str) -> bool:
@@ -156,6 +199,9 @@ def r14_2_index_kinds(ctx, rule: str = 'R14.2', rule_enum: str = 'R06.1', rule_s
             continue        # nested helpers are analysed with their enclosing function
         sc = find_index_scope(f)
         if sc is None:
+            if uses_indices_itself(f):
+                obs.append(inconclusive(rule, f"{f.name}: the selection variable (`indices`, or all positions when it is None) is found",
+                                        f.loc(), construct=_fn(f)))
             continue
         fn = _fn(f)
         # containers with a len(idx) extent
@@ -177,8 +223,57 @@ def r14_2_index_kinds(ctx, rule: str = 'R14.2', rule_enum: str = 'R06.1', rule_s
                 ks = classify_pairs(sc, n.value, rule_enum, obs, lambda ff: _order_sensitive(ctx, wm, ff), rule)
                 if ks:
                     sc.pairs[n.targets[0].id] = (ks[0], ks[1], n)
+        nested_loops = []
         if not sc.pairs:
-            obs.append(info(rule, f"{f.name}: has an index selection but no pair list", f.loc()))
+            # the same enumeration written as two nested loops: bring it into the form of a pair comprehension
+            for n in ast.walk(f.node):
+                if not isinstance(n, ast.For) or not isinstance(n.target, ast.Name):
+                    continue
+                inner = [m for st in n.body for m in ast.walk(st) if isinstance(m, ast.For) and isinstance(m.target, ast.Name)]
+                for m in inner:
+                    mentions = {x.id for x in ast.walk(n.iter) if isinstance(x, ast.Name)} | \
+                               {x.id for x in ast.walk(m.iter) if isinstance(x, ast.Name)}
+                    if sc.idx not in mentions and not any(_is_len_of(x, sc.idx) for x in ast.walk(n.iter)):
+                        continue
+                    a_, b_ = n.target.id, m.target.id
+                    g1 = ast.comprehension(target=ast.Name(id=a_, ctx=ast.Store()), iter=n.iter, ifs=[], is_async=0)
+                    it2, ifs2 = m.iter, []
+                    # value-selected inner range: idx[idx > a] / idx[a < idx]
+                    if isinstance(it2, ast.Subscript) and isinstance(it2.value, ast.Name) and it2.value.id == sc.idx and \
+                            isinstance(it2.slice, ast.Compare) and len(it2.slice.ops) == 1:
+                        c_ = it2.slice
+                        l_, r_ = c_.left, c_.comparators[0]
+                        def sub_(e):
+                            return ast.Name(id=b_, ctx=ast.Load()) if isinstance(e, ast.Name) and e.id == sc.idx else e
+                        ifs2 = [ast.Compare(left=sub_(l_), ops=c_.ops, comparators=[sub_(r_)])]
+                        it2 = ast.Name(id=sc.idx, ctx=ast.Load())
+                    g2 = ast.comprehension(target=ast.Name(id=b_, ctx=ast.Store()), iter=it2, ifs=ifs2, is_async=0)
+                    # components: how the two loop variables address the train list inside the inner body
+                    subs = [x for st in m.body for x in ast.walk(st) if isinstance(x, ast.Subscript) and isinstance(x.value, ast.Name)
+                            and x.value.id == sc.trains]
+                    subs_outer = [x for st in n.body if st is not m for x in ast.walk(st) if isinstance(x, ast.Subscript)
+                                  and isinstance(x.value, ast.Name) and x.value.id == sc.trains and st is not m]
+                    def comp_of(var):
+                        for x in subs + subs_outer:
+                            if any(isinstance(y, ast.Name) and y.id == var for y in ast.walk(x.slice)):
+                                return x.slice
+                        return ast.Name(id=var, ctx=ast.Load())
+                    elt = ast.Tuple(elts=[comp_of(a_), comp_of(b_)], ctx=ast.Load())
+                    comp = ast.ListComp(elt=elt, generators=[g1, g2])
+                    ast.copy_location(comp, n)
+                    ast.fix_missing_locations(comp)
+                    ks = classify_pairs(sc, comp, rule_enum, obs, lambda ff: _order_sensitive(ctx, wm, ff), rule)
+                    if ks:
+                        sc.pairs[f"<loops {a_},{b_}>"] = (ks[0], ks[1], n)
+                        nested_loops.append((n, m, a_, b_, ks))
+        if not sc.pairs:
+            calls_pairs = any(isinstance(x, ast.Call) and sum(1 for a in x.args if isinstance(a, ast.Subscript) and
+                              isinstance(a.value, ast.Name) and a.value.id == sc.trains) >= 2 for x in ast.walk(f.node))
+            if calls_pairs:
+                obs.append(inconclusive(rule, f"{f.name}: the enumeration of the pairs of selected trains is recognised (a pair list or "
+                                        f"two nested loops)", f.loc(), construct=fn))
+            else:
+                obs.append(info(rule, f"{f.name}: has an index selection but no pair list", f.loc()))
             continue
         # names carrying a kind: loop variables over a pair list; pair-list aliases (slices, nested-function params)
         pair_alias: Dict[str, str] = {p: p for p in sc.pairs}
